@@ -128,7 +128,7 @@ func checkC20(c *Ctx, r *Report) {
 			if call, ok := ri.Vals[1].(*ssa.Call); ok {
 				if obj := calleeObj(&call.Call); obj != nil && (isFunc(obj, "errors", "New") || isFunc(obj, "fmt", "Errorf")) {
 					// inside the loop over the service list
-					if inCycle(ri.Ret.Block()) || dominatedByRange(ri.Ret) {
+					if inCycle(ri.At) || dominatedByRange(ri.Point()) {
 						defErr = true
 					}
 				}
@@ -199,7 +199,7 @@ func checkC20(c *Ctx, r *Report) {
 					all := true
 					n := 0
 					for _, ri := range returnsOf(read) {
-						if !reach[ri.Ret.Block()] || !edgeDominates(ifi.Block(), errEdge, ri.Ret.Block()) {
+						if !reach[ri.At] || !edgeDominates(ifi.Block(), errEdge, ri.At) {
 							continue
 						}
 						n++
@@ -209,7 +209,7 @@ func checkC20(c *Ctx, r *Report) {
 					}
 					// success return must not be reachable from the error edge
 					for _, ri := range returnsOf(read) {
-						if reach[ri.Ret.Block()] && len(ri.Vals) == 2 && isNilConst(ri.Vals[1]) {
+						if reach[ri.At] && len(ri.Vals) == 2 && isNilConst(ri.Vals[1]) {
 							all = false
 						}
 					}
@@ -376,10 +376,10 @@ func c20ErrorsNotDropped(c *Ctx, r *Report, rule string) {
 					continue
 				}
 				if failBlocks != nil {
-					if !failBlocks[ri.Ret.Block()] {
+					if !failBlocks[ri.At] {
 						continue
 					}
-				} else if !canReach(call, ri.Ret) {
+				} else if !canReach(call, ri.Point()) {
 					continue
 				}
 				nret++
@@ -485,7 +485,7 @@ func nilOnlyIfParamNil(c *Ctx, g *ssa.Function, p *ssa.Parameter, depth int) str
 					if bo.Op == token.NEQ {
 						succ = b.Succs[1]
 					}
-					if edgeDominates(b, succ, ri.Ret.Block()) {
+					if edgeDominates(b, succ, ri.At) {
 						onNilEdge = true
 					}
 				}
